@@ -60,8 +60,8 @@ def run(c: Check):
     for sg, idx, reason in fails2:
         e = sg[idx]
         c.violation({"kind": "concurrent-response", "idok": e["idok"], "qok": e["qok"]},
-                    "C07 concurrent response differs from the sequential one: client %s profile %s %s %s/%d idok=%s qok=%s conc=%s | seq=%s" % (
-                        e["client"], e["prof"], e["net"], e["name"], e["qtype"], e["idok"], e["qok"], e["conc"][:400], e["seq"][:400]), e)
+                    "C07 concurrent response differs from the sequential one or has another requester's shape: client %s profile %s %s %s/%d idok=%s qok=%s shapeok=%s conc=%s | seq=%s" % (
+                        e["client"], e["prof"], e["net"], e["name"], e["qtype"], e["idok"], e["qok"], e.get("shapeok"), e["conc"][:400], e["seq"][:400]), e)
     nb = sum(1 for e in ev2 if e["name"].startswith("blocked") and e["prof"] != "anonymous")
     if len(ev2) < 500 or nb < 50:
         raise Undecided("vacuous: %d concurrent responses, %d blocked for profiles" % (len(ev2), nb))
